@@ -3510,6 +3510,7 @@ impl LuaCommandAdapter {
     /// The command handlers the server itself dispatches to, for the commands where those are
     /// free functions; None for every other command
     fn run_server_handler(storage: &Arc<StorageEngine>, db: usize, parts: &[RespFrame]) -> Option<Result<RespFrame>> {
+        use crate::network::server::Server;
         use crate::storage::commands::{consumer_groups, hashes, lists, scan, sets, streams, strings};
         
         let name = match parts.first() {
@@ -3575,6 +3576,32 @@ impl LuaCommandAdapter {
             "XCLAIM" => consumer_groups::handle_xclaim(storage, db, parts),
             "XPENDING" => consumer_groups::handle_xpending(storage, db, parts),
             "XINFO" => consumer_groups::handle_xinfo(storage, db, parts),
+            "ZADD" => Server::handle_zadd(storage, parts, db),
+            "ZREM" => Server::handle_zrem(storage, parts, db),
+            "ZSCORE" => Server::handle_zscore(storage, parts, db),
+            "ZCARD" => Server::handle_zcard(storage, parts, db),
+            "ZRANK" => Server::handle_zrank(storage, parts, db),
+            "ZREVRANK" => Server::handle_zrevrank(storage, parts, db),
+            "ZRANGE" => Server::handle_zrange(storage, parts, db),
+            "ZREVRANGE" => Server::handle_zrevrange(storage, parts, db),
+            "ZRANGEBYSCORE" => Server::handle_zrangebyscore(storage, parts, db),
+            "ZREVRANGEBYSCORE" => Server::handle_zrevrangebyscore(storage, parts, db),
+            "ZCOUNT" => Server::handle_zcount(storage, parts, db),
+            "ZINCRBY" => Server::handle_zincrby(storage, parts, db),
+            "ZPOPMIN" => Server::handle_zpopmin(storage, parts, db),
+            "ZPOPMAX" => Server::handle_zpopmax(storage, parts, db),
+            "SET" => Server::handle_set(storage, parts, db),
+            "INCR" => Server::handle_incr(storage, parts, db),
+            "DECR" => Server::handle_decr(storage, parts, db),
+            "INCRBY" => Server::handle_incrby(storage, parts, db),
+            "DECRBY" => Server::handle_decrby(storage, parts, db),
+            "DEL" => Server::handle_del(storage, parts, db),
+            "EXPIRE" => Server::handle_expire(storage, parts, db),
+            "TTL" => Server::handle_ttl(storage, parts, db),
+            "SETNX" => Server::handle_setnx(storage, parts, db),
+            "SETEX" => Server::handle_setex(storage, parts, db),
+            "PSETEX" => Server::handle_psetex(storage, parts, db),
+            "RENAMENX" => Server::handle_renamenx(storage, parts, db),
             "SCAN" => scan::handle_scan(storage, db, parts),
             "HSCAN" => scan::handle_hscan(storage, db, parts),
             "SSCAN" => scan::handle_sscan(storage, db, parts),
